@@ -20,7 +20,14 @@ type Pair struct {
 // key=value, where value is either a double-quoted string (backslash escapes,
 // decoded with strconv.Unquote) or a run of non-space bytes; a token without
 // '=' before its first quote/space is a bare word.
-func ParseLogfmt(line []byte) ([]Pair, error) {
+func ParseLogfmt(line []byte) ([]Pair, error) { return parseText(line, false) }
+
+// ParseColoredText tokenises the attribute region of a colored record (escape
+// sequences already stripped). Colored output is for a terminal, not for a logfmt
+// reader: a bracketed list value ["a b","c"] is one token there.
+func ParseColoredText(line []byte) ([]Pair, error) { return parseText(line, true) }
+
+func parseText(line []byte, brackets bool) ([]Pair, error) {
 	var out []Pair
 	i, n := 0, len(line)
 	for i < n {
@@ -73,6 +80,26 @@ func ParseLogfmt(line []byte) ([]Pair, error) {
 				}
 				return out, fmt.Errorf("bytes glued to a closing quote at byte %d: %q", i, clip(string(line[i:j]), 40))
 			}
+		} else if brackets && i < n && line[i] == '[' {
+			j := i + 1
+			for j < n && line[j] != ']' {
+				if line[j] == '"' {
+					j++
+					for j < n && line[j] != '"' {
+						if line[j] == '\\' {
+							j++
+						}
+						j++
+					}
+				}
+				j++
+			}
+			if j >= n {
+				return out, fmt.Errorf("unterminated list value at byte %d", i)
+			}
+			p.Raw = string(line[i : j+1])
+			p.Val = p.Raw
+			i = j + 1
 		} else {
 			j := i
 			for j < n && line[j] != ' ' {
